@@ -104,6 +104,10 @@ def lganm_spec(g, p, seeds, force_explicit=False, force_ranges=False, dtype="<f8
     else:
         spec["means"] = enc(rand_vec(g, p, -2, 2))
         spec["variances"] = enc(rand_vec(g, p, 0.2, 2))
+        if g.random() < 0.08:
+            # integer-typed parameters, as in the class docstring
+            spec["means"] = enc(np.array([g.randint(-2, 2) for _ in range(p)], dtype=np.int64))
+            spec["variances"] = enc(np.array([g.randint(1, 3) for _ in range(p)], dtype=np.int64))
         spec["seed"] = None
     return spec
 
@@ -171,7 +175,7 @@ def anm_ivs(g, p, how=None):
 def seed_value(s):
     """Integer value of a seed literal (python int, {'__np__': [dtype, value]} or {'__ss__': [entropy, name]})."""
     if isinstance(s, dict):
-        return s["__np__"][1] if "__np__" in s else s["__ss__"][0]
+        return s["__np__"][1] if "__np__" in s else s["__ss__"][0] if "__ss__" in s else s["__arrseed__"][0][0]
     if isinstance(s, list):
         return s[0]
     if s == "default":
@@ -184,7 +188,7 @@ def seed_is_numpy(s):
 
 
 def seed_is_object(s):
-    return isinstance(s, dict) and "__ss__" in s
+    return isinstance(s, dict) and ("__ss__" in s or "__arrseed__" in s)
 
 
 def seed_object(world, s):
@@ -193,6 +197,13 @@ def seed_object(world, s):
     from .canon import dec
     if s is not None and not isinstance(s, (int, dict, list, str)):
         return s          # already a python object
+    if isinstance(s, dict) and "__arrseed__" in s:
+        # an integer ARRAY used as seed (numpy accepts it): one object the caller keeps and passes again
+        objs = world.__dict__.setdefault("seed_objects", {})
+        vals, name = s["__arrseed__"]
+        if name not in objs:
+            objs[name] = np.array(vals, dtype=np.int64)
+        return objs[name]
     if isinstance(s, dict) and "__ss__" in s:
         objs = world.__dict__.setdefault("seed_objects", {})
         ent, name = s["__ss__"]
@@ -220,6 +231,9 @@ def seed_alphabet(g):
         out.append({"__ss__": [g.getrandbits(32), "ss%d" % g.getrandbits(16)]})
     if g.random() < 0.12:
         out.append([g.getrandbits(16), g.getrandbits(16), g.randint(0, 5)])      # a sequence of ints is a valid seed
+    if g.random() < 0.12:
+        vals = [g.getrandbits(16), g.getrandbits(16)]
+        out.append({"__arrseed__": [vals, "as%d_%d" % (vals[0], vals[1])]})       # ... and so is an integer array
     if g.random() < 0.15:
         # beyond what np.random.seed accepts (it raises, consistently) but fine for default_rng
         out.append(g.choice([2 ** 32, 2 ** 32 + g.getrandbits(20), 2 ** 63 + g.getrandbits(30)]))
